@@ -179,6 +179,12 @@ fn reader_verdict(rt: &tokio::runtime::Runtime, recv: &[u8]) -> String {
 
 /// Run one connection; returns the bytes received (empty for abrupt ends).
 fn run_conn(rt: &tokio::runtime::Runtime, addr: SocketAddr, case: &Case) -> Option<Vec<u8>> {
+    // the server runs inside this process: should a case bring it down (abort), the last lines
+    // of stderr name the connections that were in progress (they end up in the replay file)
+    {
+        let sent = case.sent.enc();
+        eprintln!("in-progress kind={} sent={}", case.kind, if sent.len() > 300 { &sent[..300] } else { &sent });
+    }
     let mut s = open(addr)?;
     let _ = s.set_read_timeout(Some(Duration::from_secs(8)));
     let bytes = case.sent.bytes();
@@ -317,6 +323,21 @@ fn corpus(thorough: bool) -> Vec<Case> {
     for n in [1024usize, 1025, 2000, 100000] {
         let kind = if n <= 1024 { "big-body-cl".to_string() } else { format!("oversize-body-cl-{}", n) };
         cs.push(over(&kind, vec![Seg::Raw(format!("POST /echo HTTP/1.1\r\nhost: localhost\r\nconnection: close\r\ncontent-length: {}\r\n\r\n", n).into_bytes()), Seg::Rep(b'b', n)]));
+    }
+    // a declared length far beyond anything that will ever be sent (or could be held): a few
+    // bytes follow, then the client gives up
+    for (label, n) in [("2e62", "4611686018427387904"), ("i64max", "9223372036854775807"), ("u64max", "18446744073709551615"), ("1e12", "1000000000000"), ("2e32", "4294967296")] {
+        for target in ["/echo", "/wb/7"] {
+            cs.push(Case {
+                kind: format!("oversize-claimed-{}", label),
+                fault: Some("oversize"),
+                sent: Sent(vec![
+                    Seg::Raw(format!("POST {} HTTP/1.1\r\nhost: localhost\r\ncontent-length: {}\r\n\r\n", target, n).into_bytes()),
+                    Seg::Rep(b'z', 40),
+                ]),
+                end: End::ReadToEof,
+            });
+        }
     }
     cs.push(over(
         "oversize-body-chunked-2000",
